@@ -6,6 +6,9 @@ op:
   reset <scratch> <isV4> <gso> <maxSeg> <dsts>   a fresh writer that the following `send` ops share: the GSO flag
                                                   and the control side of the mmsghdr slots persist between them
   send <pkts> <script>                           one WriteBatch on that writer
+  smsrc                                          skeleton of the retry loop of batchWriter.sendmmsg, from the source
+  sys badfd|loop <scratch> <gso> <maxSeg> <len,…> WriteBatch with the production sendmmsg on an invalid descriptor /
+                                                  through loopback; answer `w= e= g= rx=<tag>:<len>,…` (what arrived)
      dsts   : `<addrhex>:<port>;…`            destination table
      pkts   : `<len>@<dstIndex>,…` | `-`       the batch (bufs[k] has len bytes, addrs[k] = dsts[dstIndex])
      script : `<sent>:<ok|eio|other>,…` | `-`  results of the successive sendFn calls (`sent` is capped at the
@@ -18,6 +21,7 @@ answer:
 import Nebula.Driver.Common
 import Nebula.Driver.NetArgs
 import Nebula.Model.Writebatch
+import Nebula.Model.Sendmmsg
 import Nebula.Spec.Writebatch
 
 namespace Nebula.Driver.Writebatch
@@ -187,12 +191,43 @@ def mkW (n v4 gso maxSeg dsts : String) : Option W :=
     some { n := n, isV4 := v4 != 0, maxSeg := maxSeg, dsts := dsts, gso := gso != 0, ctl := List.replicate n none }
   | _, _, _, _, _ => none
 
+/-- The retry loop of `batchWriter.sendmmsg` as rendered from the repository source by the harness op `smsrc`
+(retry constant, loop header, syscall, switch cases with their statements, final return): this is what
+`Nebula.Sendmmsg.loop` models, clause by clause. -/
+def sendmmsgShape : String :=
+  "const enobufsRetries = 3|for[enobufs := 0][][]|r1,_,errno=unix.Syscall6(unix.SYS_SENDMMSG,…)|switch[]|" ++
+  "case[errno == unix.EINTR]{continue}|case[errno == unix.ENOBUFS && enobufs < enobufsRetries]{enobufs++;continue}|" ++
+  "case[errno != 0]{return int(r1), &net.OpError{Op: \"sendmmsg\", Err: errno}}|return int(r1), nil"
+
+/-- kernel function of `WriteBatch` when `sendFn` is the production wrapper over a raw kernel `sys`. -/
+def kernOfSys (sys : Nat → Nat → List Sendmmsg.Sys) (k n : Nat) : Outcome :=
+  match Sendmmsg.sendmmsg (sys k n) with
+  | .ret sent err _ => { sent := sent, err := match err with | .ok => .none | .eio => .eio | _ => .other }
+  | .spinning _ => { sent := 0, err := .other }
+
 def step (s : Option W) (args : List String) (impl : String) : Option W × Out :=
   match args with
   | ["reset", n, v4, gso, maxSeg, dsts] =>
     match mkW n v4 gso maxSeg dsts with
     | some w => (some w, { model := "ok", verdict := "ok", tag := "triv:reset" })
     | none => (none, badOp)
+  | ["smsrc"] =>
+    (s, { model := sendmmsgShape, verdict := expect "sendmmsg-loop-shape" impl sendmmsgShape, tag := "smsrc" })
+  | ["sys", mode, n, gso, maxSeg, lens] =>
+    match natArg n, natArg gso, intArg maxSeg, parseList "," String.toNat? lens with
+    | some n, some gso, some maxSeg, some lens =>
+      let pk : List (Pkt Dst) := lens.map (fun l => { len := l, dst := ({ fam := .v4, val := 0x7f000001 }, 0) })
+      let cfg : Cfg Dst := { n := n, maxSeg := maxSeg, routable := fun _ => true }
+      -- raw kernel: an invalid descriptor fails every syscall with EBADF (r1 = -1); loopback accepts everything
+      let sys : Nat → Nat → List Sendmmsg.Sys :=
+        if mode == "badfd" then fun _ _ => [⟨-1, .other⟩] else fun _ n => [⟨n, .ok⟩]
+      let r := writeBatch cfg (kernOfSys sys) pk (gso != 0) (List.replicate n none)
+      -- what the receiver must see: every accepted datagram, whole, in order (the kernel cuts an offloaded run
+      -- into gso_size pieces, which are its datagrams because all but the last have that size)
+      let rx := (sentIdxs r.calls).map (fun i => let l := (lens[i]?).getD 0; (if l == 0 then "z" else toString (i % 256)) ++ ":" ++ toString l)
+      let m := s!"w={r.written} e={boolStr r.err} g={boolStr r.gso} rx=" ++ (if rx.isEmpty then "-" else join "," rx)
+      (s, { model := m, verdict := expect "sys-kernel-delivery" impl m, tag := "sys:" ++ mode ++ (if r.calls.any (fun c => c.ctl.any (·.isSome)) then "+gso" else "") })
+    | _, _, _, _ => (s, badOp)
   | ["send", pkts, script] =>
     match s with
     | some w =>
